@@ -49,6 +49,8 @@ def children(t):
         return [t[1], t[2]]
     if k in ("neg", "T", "H", "NoDisp", "densify_lazify"):
         return [t[1]]
+    if k == "gram":
+        return [t[2]]
     if k in ("lmul", "rdiv"):
         return [t[2]]
     if k in ("rmul", "div", "slice"):
@@ -193,6 +195,11 @@ def ref(t, seed):
         ax = t[2]
         _need(all(r.mat.shape[1 - ax] == rs[0].mat.shape[1 - ax] for r in rs))
         return Ref(np.concatenate([r.mat for r in rs], axis=ax), _promote_sets(*[r.dtypes for r in rs]))
+    if k == "gram":
+        r = ref(t[2], seed)
+        M = r.mat
+        m = {"HA": M.conj().T @ M, "TA": M.T @ M, "AH": M @ M.conj().T, "AT": M @ M.T}[t[1]]
+        return Ref(m, r.dtypes)
     if k == "T":
         r = ref(t[1], seed)
         return Ref(r.mat.T, r.dtypes)
@@ -247,6 +254,9 @@ def shape_of(t):
     if k in ("T", "H"):
         s = shape_of(t[1])
         return (s[1], s[0])
+    if k == "gram":
+        s = shape_of(t[2])
+        return (s[1], s[1]) if t[1] in ("HA", "TA") else (s[0], s[0])
     if k == "slice":
         s = shape_of(t[1])
         try:
@@ -333,6 +343,8 @@ def signature(t):
         return f"{k}({signature(t[1])},{t[2]})"
     if k == "Ann":
         return f"{t[1]}({signature(t[2])})"
+    if k == "gram":
+        return f"gram{t[1]}({signature(t[2])})"
     if k == "slice":
         return f"slice({signature(t[1])},{_spec_class(t[2])},{_spec_class(t[3])})"
     if k == "BlockDiag":
@@ -355,4 +367,6 @@ def coarse_signature(t):
         return k
     if k == "Ann":
         return f"{t[1]}({coarse_signature(t[2])})"
+    if k == "gram":
+        return f"gram{t[1]}({coarse_signature(t[2])})"
     return f"{k}({','.join(coarse_signature(c) for c in children(t))})"
